@@ -172,6 +172,27 @@ func checkC20(c *Check, p *Program) {
 		c.Decide(inboundState >= 0, "C20.D4", name+" waits on the socket's inbound channel", pos, "select receives from socket.Inbound()", "the select does not receive from the socket that the request was sent on")
 		if inboundState >= 0 {
 			rv := selectRecvValue(sel, inboundState)
+			// the received value is nil once the receiver has terminated (closed channel): it may only be
+			// looked at through a comma-ok type assertion or a nil comparison
+			if rv != nil {
+				badUse := ""
+				for _, u := range usesOf(rv) {
+					switch x := u.(type) {
+					case *ssa.TypeAssert:
+						if !x.CommaOk {
+							badUse = "asserted without comma-ok at " + p.InstrPos(x)
+						}
+					case *ssa.BinOp, *ssa.DebugRef, *ssa.Phi:
+					case ssa.CallInstruction:
+						if x.Common().IsInvoke() && x.Common().Value == rv {
+							badUse = "method " + x.Common().Method.Name() + " is called on it at " + p.InstrPos(x)
+						}
+					case *ssa.MakeInterface, *ssa.ChangeInterface:
+					default:
+					}
+				}
+				c.Decide(badUse == "", "C20.D4", name+" received value is only type-tested", p.InstrPos(sel), "comma-ok assertions only", "the value received from Inbound() is nil when the receiver has terminated (unreachable port, closed socket): "+badUse+" - the call panics instead of ending at its timeout")
+			}
 			resType := ""
 			// result type: first result's element
 			res0 := fn.Signature.Results().At(0).Type()
